@@ -321,17 +321,21 @@ def gpg_case(draw):
             'op': draw(st.sampled_from(
                 ['insert', 'insert', 'delete', 'dup', 'move', 'ws', 'crlf',
                  'cr', 'dash', 'undash', 'prepend', 'append', 'concat',
-                 'nest', 'chop'])),
+                 'nest', 'chop', 'longline', 'longline'])),
             'pos': draw(st.integers(0, 40)),
             'pos2': draw(st.integers(0, 40)),
             'text': draw(st.sampled_from(INJECT)),
         })
     return {'lines': lines, 'muts': muts,
-            'via': draw(st.sampled_from(['file', 'loader']))}
+            'via': draw(st.sampled_from(['file', 'loader', 'sub-loader']))}
 
 
 def strat_gpg(tier):
     return gpg_case()
+
+
+LONG_TOTALS = [5000, 19990, 19998, 19999, 20000, 20005, 20010, 20036, 20050,
+               25000, 40010]
 
 
 def mutate_text(signed, other, muts):
@@ -372,6 +376,14 @@ def mutate_text(signed, other, muts):
             lines[i:i] = other.split('\n')
         elif op == 'chop' and lines:
             lines = lines[:i]
+        elif op == 'longline' and lines:
+            # blanks up to about the line length OpenPGP implementations
+            # handle (gpg: 20000), then more text
+            total = LONG_TOTALS[mu['pos2'] % len(LONG_TOTALS)]
+            tail = ' MD5 evil' if mu['text'] != '\t' else ' ' + mu['text']
+            pad = total - len(lines[i]) - len(tail)
+            if pad > 0:
+                lines[i] = lines[i] + ' ' * pad + tail
     return '\n'.join(lines)
 
 
@@ -423,7 +435,24 @@ def run_gpg(desc):
         classes = ['mutated' if mutated != signed else 'original',
                    'via:' + via]
         try:
-            if via == 'loader':
+            if via == 'sub-loader':
+                # the signed Manifest is a sub-Manifest that an unsigned
+                # top-level Manifest refers to with matching checksums
+                import hashlib
+                os.mkdir(os.path.join(d, 'sub'))
+                os.rename(path, os.path.join(d, 'sub', 'Manifest'))
+                path = os.path.join(d, 'sub', 'Manifest')
+                raw = mutated.encode('utf8')
+                with open(os.path.join(d, 'Manifest'), 'w') as f:
+                    f.write(f'MANIFEST sub/Manifest {len(raw)} SHA256 '
+                            f'{hashlib.sha256(raw).hexdigest()}\n')
+                from gemato.recursiveloader import ManifestRecursiveLoader
+                ldr = ManifestRecursiveLoader(
+                    os.path.join(d, 'Manifest'), verify_openpgp=True,
+                    openpgp_env=env)
+                ldr.load_manifests_for_path('sub/anything')
+                m = ldr.loaded_manifests['sub/Manifest']
+            elif via == 'loader':
                 # the way the tree loader opens and reads the file
                 from gemato.recursiveloader import ManifestRecursiveLoader
                 ldr = ManifestRecursiveLoader(path, verify_openpgp=True,
